@@ -146,10 +146,11 @@ FmtSpec(sp) ==        \* fmt's parse_format_specs for a string argument: [[fill]
       one == ~two /\ n >= 1 /\ isal(sp[1])
       w == SubSeq(sp, IF two THEN 3 ELSE IF one THEN 2 ELSE 1, n)
       dig == {"0", "1", "2", "3", "4", "5", "6", "7", "8", "9"}
-  IN [ok |-> (\A i \in 1..Len(w) : w[i] \in dig) /\ (Len(w) > 0 => w[1] # "0") /\ (two => sp[1] \notin {"{", "}"}),
+      ok == (\A i \in 1..Len(w) : w[i] \in dig) /\ (Len(w) > 0 => w[1] # "0") /\ (two => sp[1] \notin {"{", "}"})
+  IN [ok |-> ok,
       fill |-> IF two THEN sp[1] ELSE " ",
       align |-> IF two THEN sp[2] ELSE IF one THEN sp[1] ELSE "<",
-      width |-> WNum(w)]
+      width |-> IF ok THEN WNum(w) ELSE 0]
 FmtPad(v, sp) ==
   LET d == sp.width - Len(v)
       fillN(k) == [i \in 1..k |-> sp.fill]
@@ -345,8 +346,10 @@ CaseOf ==
   THEN LET f == Flat(p')
            rw == Rewrite(f)
            r == IF rw.rej THEN FmtErr ELSE FormatI(f, rw, BaseFixed)
+           last == p'[Len(p')]
        IN [ph |-> "p", flat |-> f, rej |-> rw.rej, why |-> rw.why, err |-> r.err, out |-> r.out,
-           valid |-> C!Valid(f), must |-> C!MustReject(f)]
+           valid |-> C!Valid(f), must |-> C!MustReject(f),
+           act |-> IF last.t = "attr" /\ last.sp # 0 THEN "attr+spec" ELSE last.t]   \* which action built it
   ELSE IF Phase = "message"
   THEN [ph |-> "m", flat |-> Flat(p'), msg |-> msg',
         split |-> MultiLine(msg'), single |-> Single(msg')]
